@@ -446,22 +446,24 @@ theorem isZero_iff (p : Jac F) : p.isZero = true ↔ toAff p = none := by
 
 theorem eq_iff (p q : Jac F) : p.eq q = true ↔ toAff p = toAff q := by
   by_cases hp : p.z = 0
-  · rw [toAff_of_z_eq_zero hp, eq_comm, ← isZero_iff]
-    simp [Jac.eq, isZero_eq_true hp]
+  · have : p.eq q = q.isZero := by simp [Jac.eq, isZero_eq_true hp]
+    rw [this, isZero_iff, toAff_of_z_eq_zero hp]
+    exact eq_comm
   by_cases hq : q.z = 0
-  · rw [toAff_of_z_eq_zero hq, ← isZero_iff]
-    simp [Jac.eq, isZero_eq_false hp, isZero_eq_true hq]
+  · have : p.eq q = false := by simp [Jac.eq, isZero_eq_false hp, isZero_eq_true hq]
+    rw [this, toAff_of_z_eq_zero hq, ← isZero_iff, isZero_eq_false hp]
   obtain ⟨x1, y1, z1, hz1, rfl⟩ := exists_mk p hp
   obtain ⟨x2, y2, z2, hz2, rfl⟩ := exists_mk q hq
-  rw [toAff_mk _ _ _ hz1, toAff_mk _ _ _ hz2]
-  simp only [Jac.eq, isZero_eq_false hp, isZero_eq_false hq, Bool.false_eq_true, if_false, mk, sq,
+  rw [toAff_mk _ _ _ hz1, toAff_mk _ _ _ hz2, Jac.eq, isZero_eq_false hp, isZero_eq_false hq]
+  simp only [Bool.false_eq_true, if_false, mk, sq,
     Option.some.injEq, Prod.mk.injEq]
   have e1 := u_eq_iff x1 x2 z1 z2 hz1 hz2
   have e2 : y1 * (z1 * z1 * z1) * (z2 * z2 * z2) = y2 * (z2 * z2 * z2) * (z1 * z1 * z1) ↔ y1 = y2 := by
     rw [← s_eq_iff y1 y2 z1 z2 hz1 hz2]
     constructor <;> intro h <;> linear_combination h
   by_cases hx : x1 = x2
-  · simp only [e1.2 hx, if_true, decide_eq_true_eq, e2, hx, true_and]
+  · subst hx
+    simp only [e1.2 rfl, if_true, decide_eq_true_eq, e2, true_and]
   · have : ¬ (x1 * (z1 * z1) * (z2 * z2) = x2 * (z2 * z2) * (z1 * z1)) := fun h => hx (e1.1 h)
     simp [this, hx]
 
@@ -483,5 +485,112 @@ theorem toAffine_ok (p : Jac F) : ∃ r, toAffine p = .ok r ∧ ofAffine r = toA
   · refine ⟨⟨p.x * sq p.z⁻¹, p.y * (sq p.z⁻¹ * p.z⁻¹), false⟩, by simp [h1, inverse?, hz], ?_⟩
     simp only [ofAffine, toAff, hz, Bool.false_eq_true, if_false, sq]
     congr 2 <;> field_simp
+
+
+theorem toAff_affineAdd (c : Curve F) (hA : ∀ e, c.mulByA e = c.a * e) (h2 : (2 : F) ≠ 0)
+    (p q : Affine F) (hP : onCurve c.a c.b (ofAffine p) = true)
+    (hQ : onCurve c.a c.b (ofAffine q) = true) :
+    toAff (affineAdd c p q) = affAdd c.a (ofAffine p) (ofAffine q) := by
+  rw [affineAdd, toAff_addMixed c hA h2 _ q (by rw [toAff_fromAffine]; exact hP) hQ,
+    toAff_fromAffine]
+
+theorem toAff_affineSub (c : Curve F) (hA : ∀ e, c.mulByA e = c.a * e) (h2 : (2 : F) ≠ 0)
+    (p q : Affine F) (hP : onCurve c.a c.b (ofAffine p) = true)
+    (hQ : onCurve c.a c.b (ofAffine q) = true) :
+    toAff (affineSub c p q) = affAdd c.a (ofAffine p) (affNeg (ofAffine q)) := by
+  rw [affineSub, toAff_subMixed c hA h2 _ q (by rw [toAff_fromAffine]; exact hP) hQ,
+    toAff_fromAffine]
+
+/-! ### batch normalisation -/
+
+/-- the identity interpretation of `fieldOps` over a field -/
+def fieldInterp : (fieldOps (F := F)).Interp F where
+  V := fun _ => True
+  φ := id
+  one_V := trivial
+  one_φ := rfl
+  mul_V := fun _ _ => trivial
+  mul_φ := fun _ _ => rfl
+  square_V := fun _ => trivial
+  square_φ := fun _ => rfl
+  isZero_iff := fun _ => by simp [fieldOps]
+  inv_some := fun {a} _ h => ⟨a⁻¹, by simp [fieldOps, inverse?]; exact h, trivial, rfl⟩
+
+theorem ofAffine_normalizeWith (g : Jac F) (w : F)
+    (h : (g.z = 0 → w = g.z) ∧ (g.z ≠ 0 → w = 1 * g.z⁻¹)) :
+    ofAffine (normalizeWith g w) = toAff g := by
+  unfold normalizeWith
+  by_cases hz : g.z = 0
+  · rw [isZero_eq_true hz, toAff_of_z_eq_zero hz]; simp [ofAffine, Affine.identity]
+  · rw [isZero_eq_false hz, h.2 hz]
+    simp only [ofAffine, toAff, hz, Bool.false_eq_true, if_false, sq]
+    congr 2 <;> field_simp
+
+theorem zipNormalize_spec (v : List (Jac F)) (w : List F)
+    (h : List.Forall₂ (fun (g : Jac F) (r : F) => (g.z = 0 → r = g.z) ∧ (g.z ≠ 0 → r = 1 * g.z⁻¹)) v w) :
+    (zipNormalize v w).map ofAffine = v.map toAff := by
+  induction h with
+  | nil => rfl
+  | cons hd _ ih =>
+    simp only [zipNormalize, List.map_cons, ih, ofAffine_normalizeWith _ _ hd]
+
+theorem normalizeBatch_ok (v : List (Jac F)) :
+    ∃ l, normalizeBatch v = .ok l ∧ l.map ofAffine = v.map toAff := by
+  obtain ⟨w, hw, hR⟩ := Ops.batchInvMul_rel (fieldInterp (F := F)) (v.map (·.z)) 1
+    (fun _ _ => trivial) trivial
+  refine ⟨zipNormalize v w, ?_, ?_⟩
+  · simp only [normalizeBatch, batchInversion, hw]
+  · apply zipNormalize_spec
+    rw [List.forall₂_map_left_iff] at hR
+    refine hR.imp ?_
+    intro g r h
+    exact ⟨h.2.1, h.2.2⟩
+
+/-! ### sums -/
+
+theorem foldl_add_spec (c : Curve F) (hA : ∀ e, c.mulByA e = c.a * e) (h2 : (2 : F) ≠ 0)
+    (l : List (Jac F)) (hl : ∀ p ∈ l, onCurve c.a c.b (toAff p) = true) :
+    ∀ acc : Jac F, onCurve c.a c.b (toAff acc) = true →
+      toAff (l.foldl (add c) acc) = (l.map toAff).foldl (affAdd c.a) (toAff acc) ∧
+      onCurve c.a c.b (toAff (l.foldl (add c) acc)) = true := by
+  induction l with
+  | nil => intro acc h; exact ⟨rfl, h⟩
+  | cons p ps ih =>
+    intro acc h
+    have hp := hl p (by simp)
+    have := ih (fun q hq => hl q (by simp [hq])) (add c acc p) (onCurve_add c hA h2 acc p h hp)
+    simpa only [List.foldl_cons, List.map_cons, toAff_add c hA h2 acc p h hp] using this
+
+theorem foldl_addMixed_spec (c : Curve F) (hA : ∀ e, c.mulByA e = c.a * e) (h2 : (2 : F) ≠ 0)
+    (l : List (Affine F)) (hl : ∀ p ∈ l, onCurve c.a c.b (ofAffine p) = true) :
+    ∀ acc : Jac F, onCurve c.a c.b (toAff acc) = true →
+      toAff (l.foldl (addMixed c) acc) = (l.map ofAffine).foldl (affAdd c.a) (toAff acc) ∧
+      onCurve c.a c.b (toAff (l.foldl (addMixed c) acc)) = true := by
+  induction l with
+  | nil => intro acc h; exact ⟨rfl, h⟩
+  | cons p ps ih =>
+    intro acc h
+    have hp := hl p (by simp)
+    have e := toAff_addMixed c hA h2 acc p h hp
+    have := ih (fun q hq => hl q (by simp [hq])) (addMixed c acc p)
+      (by rw [e]; exact onCurve_affAdd _ _ _ _ h hp)
+    simpa only [List.foldl_cons, List.map_cons, e] using this
+
+/-! ### `is_on_curve` -/
+
+theorem isOnCurve_eq (c : Curve F) (hA : ∀ e, c.mulByA e = c.a * e) (a : Affine F) :
+    a.isOnCurve c = onCurve c.a c.b (ofAffine a) := by
+  unfold Affine.isOnCurve ofAffine
+  cases hi : a.infinity
+  · simp only [Bool.false_eq_true, if_false, onCurve, addB, sq, hA]
+    apply decide_eq_decide.2
+    by_cases ha : c.a = 0 <;> by_cases hb : c.b = 0 <;> simp [ha, hb]
+  · simp [onCurve]
+
+theorem std_mulByA (a b : F) (d : Bool) (e : F) : (Curve.std a b d).mulByA e = (Curve.std a b d).a * e := by
+  simp only [Curve.std, defaultMulByA]
+  by_cases h : a = 0
+  · simp [h]
+  · simp [h, mul_comm]
 
 end Ark.Curve.SW
